@@ -12,10 +12,21 @@ import (
 )
 
 type Case struct {
-	Kind  string `json:"kind"` // "msg" or "dir"
+	Kind  string `json:"kind,omitempty"` // "msg" or "dir"
 	Dotu  bool   `json:"dotu"`
-	Input []byte `json:"input"`
+	Input []byte `json:"input,omitempty"`
 	Desc  string `json:"desc,omitempty"`
+	// Spec, when set, describes the input by construction (Input is empty and
+	// Kind follows from the Spec): see extreme.go.
+	Spec *Spec `json:"spec,omitempty"`
+}
+
+// bytes returns the kind and the input bytes of the case.
+func (c *Case) bytes() (string, []byte, error) {
+	if c.Spec == nil {
+		return c.Kind, c.Input, nil
+	}
+	return c.Spec.Build(c.Dotu)
 }
 
 type result struct {
@@ -75,8 +86,38 @@ var tail1 = []byte{0xFF, 0xFF, 0xFF, 0xFF, 0xFF, 0xFF, 0xFF, 0xFF, 0xFF, 0xFF, 0
 var tail2 = []byte{0, 0, 0, 0, 0, 0, 0, 0, 0, 0, 0, 0, 0, 0, 0, 0, 0, 0, 0, 0, 0, 0, 0, 0, 0, 0, 0, 0, 0, 0, 0, 0, 0, 0, 0, 0, 0, 0, 0, 0}
 var tail3 = []byte{1, 0, 1, 0, 1, 0, 7, 0, 0, 0, 120, 1, 0, 2, 0, 'a', 'b', 4, 0, 0, 0, 9, 9, 9, 9}
 
+// refDecode is ref9p.Decode remembering its last result: the bookkeeping
+// (nontrivial) and the oracle decode the same buffer one after the other, and
+// the reference decoding of a 65535-element walk is not cheap. The buffer is
+// not modified between the two calls; the memo never outlives one case (try
+// clears it before the case, checkMsg after it), so a recycled address cannot
+// produce a stale answer.
+var refMemo struct {
+	p    *byte
+	n    int
+	dotu bool
+	m    *ref9p.Msg
+	used int
+	err  error
+}
+
+func refForget() { refMemo.p, refMemo.m, refMemo.err = nil, nil, nil }
+
+func refDecode(b []byte, dotu bool) (*ref9p.Msg, int, error) {
+	if len(b) < 4096 {
+		return ref9p.Decode(b, dotu)
+	}
+	if refMemo.p == &b[0] && refMemo.n == len(b) && refMemo.dotu == dotu {
+		return refMemo.m, refMemo.used, refMemo.err
+	}
+	m, n, err := ref9p.Decode(b, dotu)
+	refMemo.p, refMemo.n, refMemo.dotu, refMemo.m, refMemo.used, refMemo.err = &b[0], len(b), dotu, m, n, err
+	return m, n, err
+}
+
 // checkMsg applies the whole C02 oracle to one input for one dialect.
 func checkMsg(b []byte, dotu bool) error {
+	defer refForget()
 	r := unpack(b, dotu, true)
 	if r.panicked != nil {
 		return fmt.Errorf("Unpack panicked: %v", r.panicked)
@@ -112,7 +153,7 @@ func checkMsg(b []byte, dotu bool) error {
 			return fmt.Errorf("result depends on bytes beyond the declared size %d: %s", declared, d)
 		}
 	}
-	ref, _, rerr := ref9p.Decode(b, dotu)
+	ref, _, rerr := refDecode(b, dotu)
 	if r.err != nil {
 		if rerr == nil {
 			return fmt.Errorf("Unpack rejects a strictly valid %s (dotu=%v): %v", ref9p.TypeName(ref.Type), dotu, r.err)
@@ -295,22 +336,32 @@ func checkDir(b []byte, dotu bool) error {
 
 // Run applies the oracle for the case's dialect.
 func Run(c *Case) error {
-	if c.Kind == "dir" {
-		return checkDir(c.Input, c.Dotu)
+	kind, b, err := c.bytes()
+	if err != nil {
+		return fmt.Errorf("harness: %v", err)
 	}
-	return checkMsg(c.Input, c.Dotu)
+	return run(kind, b, c.Dotu)
+}
+
+func run(kind string, b []byte, dotu bool) error {
+	if kind == "dir" {
+		return checkDir(b, dotu)
+	}
+	return checkMsg(b, dotu)
 }
 
 // nontrivial: not a strictly valid packet but gets past the header stage (so
-// field decoding is reached), or a valid packet followed by a tail.
-func nontrivial(c *Case) bool {
-	if c.Kind == "dir" {
-		_, n, err := ref9p.DecodeStat(c.Input, c.Dotu)
-		return err != nil && len(c.Input) >= 2 || err == nil && n < len(c.Input)
+// field decoding is reached), or a valid packet followed by a tail, or a valid
+// packet / record in which a 16-bit length, count or size field holds a value
+// >= 0x7fff (the arithmetic on that field is at its limits).
+func nontrivial(kind string, b []byte, dotu bool) bool {
+	if kind == "dir" {
+		_, n, err := ref9p.DecodeStat(b, dotu)
+		return err != nil && len(b) >= 2 || err == nil && (n < len(b) || n-2 >= extreme16)
 	}
-	_, n, err := ref9p.Decode(c.Input, c.Dotu)
+	m, n, err := refDecode(b, dotu)
 	if err == nil {
-		return n < len(c.Input)
+		return n < len(b) || n >= extreme16 && extremeMsg(m, dotu)
 	}
-	return ref9p.Stage1(c.Input)
+	return ref9p.Stage1(b)
 }
